@@ -29,3 +29,5 @@ def run(chk):
 
     settings_reach_every_node(chk, "C03")  # with fractional positions the index does not depend on the capital: the fractional mode has to reach every security
     core_rules.float_history_tables(chk, "C03")  # the flows (and value) histories the index recurrence is stated over hold what update writes: float columns
+    from .c17 import renormalized
+    renormalized(chk)  # the renormalised fixed-income index is built on the same recurrence: value change net of the SAME date's flows
